@@ -176,14 +176,29 @@ def document_clone(run: Run, stream):
     pro = [rng.choice(["<!--a-->", "<?p x?>", "<!-- b -->", "<?q?>"]) for _ in range(rng.randint(0, 3))]
     epi = [rng.choice(["<!--z-->", "<?e y?>", "<!---->"]) for _ in range(rng.randint(0, 3))]
     xml = "".join(pro) + rng.choice(DOCS) + "".join(epi)
-    case = {"xml": xml, "document_clone": True}
+    # the document's configuration must not change what a clone looks like: parser options of every kind, and edits
+    # after loading that leave reducible whitespace, comments and processing instructions in the tree
+    from delb import ParserOptions, altered_default_filters, new_comment_node, new_processing_instruction_node, tag
+
+    opts = {k: rng.random() < 0.4 for k in ("reduce_whitespace", "remove_comments", "remove_processing_instructions")}
+    edits = rng.randint(0, 3)
+    case = {"xml": xml, "document_clone": True, "parser_options": opts, "edits": edits}
     run.case(stream, case, bool(pro or epi))
-    d = Document(xml)
+    d = Document(xml, parser_options=ParserOptions(**opts))
+    keep = []
+    with altered_default_filters():
+        tags = [d.root] + [n for n in d.root.iterate_descendants() if type(n).__name__ == "TagNode"]
+        for _ in range(edits):
+            t = rng.choice(tags)
+            keep.extend(t.append_children(rng.choice(["  two   three ", " lead", "   ", "tail  end ", "x"]),
+                                          rng.choice([tag("c", "x  y"), new_comment_node(" c "), new_processing_instruction_node("p", "d  d"), "\n  z"])))
+    xml = str(d)
     c = d.clone()
     ok = (
         [str(n) for n in c.prologue] == [str(n) for n in d.prologue]
         and [str(n) for n in c.epilogue] == [str(n) for n in d.epilogue]
-        and trees.extract(c.root) == trees.extract(d.root)
+        # modulo coalescing of adjacent text nodes nobody references (C04 permits it at any collection)
+        and trees.merge_text(trees.extract(c.root)) == trees.merge_text(trees.extract(d.root))
         and c.root is not d.root
         and all(a is not b for a in c.prologue for b in d.prologue)
     )
@@ -192,7 +207,7 @@ def document_clone(run: Run, stream):
     # independence on document level
     c.root.append_children("X")
     c.prologue.insert(0, __import__("delb").new_comment_node("new"))
-    if str(d) != str(Document(xml)):
+    if str(d) != xml:
         run.violation(stream, case, {"why": "editing the clone changed the original document"})
     run.count("document clone", f"{len(pro)}+{len(epi)}")
 
